@@ -19,6 +19,8 @@ gvars == <<S, hist, pat, scn, wpos, gst, rst>>
 C(op, k, c, s, u, n, src, j) == Call(op, k, c, s, u, n, src, j)
 D  == "default"
 Put(k, c, s)      == C("Put", k, c, s, "", 0, "", 0)
+PutBegin(k, c, s) == C("PutBegin", k, c, s, "", 0, "", 0)
+PutCommit         == C("PutCommit", "", "", "", "", 0, "", 0)
 Del(k)            == C("Delete", k, "", "", "", 0, "", 0)
 Copy(src, k, s)   == C("Copy", k, "", s, "", 0, src, 0)
 Trans(k, s)       == C("Transition", k, "", s, "", 0, "", 0)
@@ -63,7 +65,14 @@ Scenarios == <<
    w |-> <<UpCopy("u1", 1, "k1", 0), Del("k1"), Abort("u1")>>, gc |-> TRUE, rd |-> ""],
   \* 9  cross-store copy / transition against the collector of both stores
   [pre |-> <<Put("k1", "a", D), Put("k2", "a", Other), RegOver("k2"), Del("k2"), Tick>>,
-   w |-> <<Copy("k1", "k2", Other), Trans("k1", Other)>>, gc |-> TRUE, rd |-> ""]
+   w |-> <<Copy("k1", "k2", Other), Trans("k1", Other)>>, gc |-> TRUE, rd |-> ""],
+  \* 10 slow upload: the part id is minted before the pass starts (older than the grace window when it
+  \*    becomes visible) and the commit falls between any two sections of the pass
+  [pre |-> <<Put("k2", "b", D), Orphan(D, "a"), Tick>>,
+   w |-> <<PutBegin("k1", "a", D), PutCommit>>, gc |-> TRUE, rd |-> ""],
+  \* 11 object whose manifest repeats one deduplicated part: copies and deletes against the collector
+  [pre |-> <<Create("u1", "k1", D), UpPart("u1", 1, "a"), UpPart("u1", 2, "a"), Complete("u1"), Tick>>,
+   w |-> <<Copy("k1", "k2", D), Del("k1"), Put("k1", "a", D), Del("k2")>>, gc |-> FALSE, rd |-> ""]
 >>
 Sc == Scenarios[scn]
 
